@@ -8,8 +8,9 @@ import SpVerif.Ops.SpacePacket
 namespace SpVerif.Driver
 open SpVerif.J Lean
 
-def allOps : List (String × Handler) :=
-  Ops.SpacePacket.ops
+-- one line per Ops module (file is merged with merge=union: add lines, do not edit existing ones)
+def allOps : List (String × Handler) := []
+  ++ Ops.SpacePacket.ops
 
 def table : Std.HashMap String Handler := Std.HashMap.ofList allOps
 
